@@ -685,6 +685,29 @@ type atom struct {
 	av   ssa.Value
 	bv   ssa.Value
 	iter bool // loop-iteration test (index < len / channel-range ok): not a user condition
+	ifi  *ssa.If
+	br   bool // which edge of ifi establishes the atom
+}
+
+// target: the block entered when the atom's condition was just established.
+func (a *atom) target() *ssa.BasicBlock {
+	if a == nil || a.ifi == nil {
+		return nil
+	}
+	if a.br {
+		return a.ifi.Block().Succs[0]
+	}
+	return a.ifi.Block().Succs[1]
+}
+
+// alwaysFrom: once the atom's edge has been taken, every way out of the region passes through x:
+// x is not subject to any further (possibly disjunctive) condition that dominance of single edges cannot see.
+func (m *model) alwaysFrom(a *atom, x ssa.Instruction, inside func(*ssa.BasicBlock) bool) bool {
+	t := a.target()
+	if t == nil {
+		return false
+	}
+	return m.mustPass(t, inside, x)
 }
 
 func (a atom) String() string {
@@ -740,6 +763,7 @@ func (m *model) localAtoms(b *ssa.BasicBlock) []atom {
 	for _, g := range ssax.Guards(b) {
 		a := m.mkAtom(g.If.Cond, g.Branch)
 		a.iter = m.isIterTest(g.If)
+		a.ifi, a.br = g.If, g.Branch
 		out = append(out, a)
 	}
 	m.guardMemo[b] = out
